@@ -90,13 +90,13 @@ def isSAIorGE : Exc → Bool
 /-- `async_gen_unwrap_value` (asend / athrow mode) -/
 def unwrap {σ : Type} (closed : Bool) : CSt σ × GOut → AG σ × CallOut
   | (fr, .wrapped v) => (⟨fr, false, closed⟩, .returned v)
-  | (fr, .awaiting y) => (⟨fr, true, closed⟩, .pending y)
+  | (fr, .awaiting y) => (⟨fr, true, closed⟩, .pending (.plain y))
   | (fr, .err e) => (⟨fr, false, closed || isSAIorGE e⟩, .raised e)
 
 /-- aclose mode of `async_gen_athrow_send/throw` (`yield_close` / `check_error`) -/
 def unwrapClose {σ : Type} (closed : Bool) : CSt σ × GOut → AG σ × CallOut
   | (fr, .wrapped _) => (⟨fr, false, closed⟩, .raised (.runtime rtAgIgnoredGE))
-  | (fr, .awaiting y) => (⟨fr, true, closed⟩, .pending y)
+  | (fr, .awaiting y) => (⟨fr, true, closed⟩, .pending (.plain y))
   | (fr, .err e) => (⟨fr, false, closed⟩, if isSAIorGE e then .returned 0 else .raised e)
 
 /-- first `send(None)` to the awaitable returned by `ag.asend(v)` / `ag.athrow(e)` / `ag.aclose()` -/
